@@ -67,11 +67,18 @@ def blk_cases():
         yield c
 
 
-def cases(tier, sigrev=False):
-  yield from blk_cases()
+PLAN_SIG = {'shipped': True, 'uniform': [], 'perop': ['NQ', 'SRQ8a'],
+            'io': ['none', 'out8'], 'io_on': ('shipped',)}
+PLANS['sig'] = PLAN_SIG
+
+
+def cases(tier, sigrev=False, blk=True):
+  if blk:
+    yield from blk_cases()
   for n, types, variants, exports, pname in spec(tier):
     yield from universe.graph_cases([(n, types, variants, exports)],
-                                    {'rp': pname}, sigrev=sigrev and n <= 2)
+                                    {'rp': pname}, sigrev=sigrev and n <= 2,
+                                    sigrev_extra={'rp': 'sig'})
 
 
 def plan(tier, seed):
